@@ -66,7 +66,7 @@ def c14_make_run(s, i):
         driver = cfg.choice(sorted(C14_VARIANTS))
         gc = "swiper"
     exp = mt.expected(script, C14_VARIANTS.get(driver))
-    mode = cfg.choices(["clean", "recoverable", "fatal"], [3, 5, 2])[0]
+    mode = cfg.choices(["clean", "recoverable", "fatal", "errfatal"], [3, 5, 2, 2])[0]
     sink = cfg.choice(["pipe", "file"])
     io = None
     if mode == "recoverable":
@@ -81,6 +81,10 @@ def c14_make_run(s, i):
             parts.append("errshort=%d" % cfg.choice([300, 700, 950]))
             parts.append("erreintr=%d" % cfg.choice([0, 300, 600]))
         io = ",".join(parts)
+    elif mode == "errfatal":
+        # standard error fails for good (full disk, closed pipe) from a byte offset on: the
+        # report may be cut short, but the exit status and the program's stdout must not suffer
+        io = "seed=%d,errfatal=%s@%d" % (cfg.getrandbits(40), cfg.choice(["ENOSPC", "EPIPE", "EIO"]), cfg.choice([0, 0, 1, 5, 14, 40, 200]))
     elif mode == "fatal":
         total = len(exp["stdout"])
         at = cfg.randint(0, total + 5) if cfg.random() < 0.7 else cfg.choice([0, 1, 1023, 1024, 1025, total])
@@ -142,6 +146,17 @@ def c14_classify(r, res):
         if nmark > mt.NMARKERS or (exp["rc"] == 0 and r["mode"] != "fatal" and nmark != mt.NMARKERS):
             return ("stdout-wrong", "%d marker lines of the printer threads, expected %s%d" % (nmark, "" if exp["rc"] == 0 else "at most ", mt.NMARKERS))
     first = err.splitlines()[0] if err.strip() else None
+    if r["mode"] == "errfatal":
+        # the report itself may be incomplete; everything else must be as without the fault
+        if "panicked at" in err:
+            return ("panic", "the failing standard error turned the report into a Rust panic: " + err.split("panicked at", 1)[1][:120].strip())
+        if out != exp["stdout"]:
+            if exp["stdout"].startswith(out):
+                return ("stdout-lost", "%d of %d bytes written to standard output before the %s were delivered (standard error failing)" % (len(out), len(exp["stdout"]), "trap" if exp["rc"] else "exit"))
+            return ("stdout-wrong", "delivered bytes differ from what the program wrote")
+        if rc != exp["rc"]:
+            return ("status", "exit status %d, expected %d (standard error failing)" % (rc, exp["rc"]))
+        return None
     if r["mode"] == "fatal":
         # deliberately relaxed: an unrecoverable stdout error may end the program in any way,
         # but what was delivered must be a prefix of what the program wrote - never wrong data
